@@ -55,6 +55,10 @@ TStep ==
           /\ settledAt' = IF e.ev = "Settle" /\ e.ok THEN epoch ELSE settledAt
           /\ paid' = IF e.ev = "Collect" /\ e.ok THEN e.paid ELSE paid
           /\ Chk("C16", "Solvent", Solvent', e)
+          \* C01: "a payment channel holds at least what it owes the payee" after every successful message, and a
+          \* collection pays out the whole balance (nothing is stranded in the deleted actor)
+          /\ Chk("C01", "PaychSolvent", Solvent', e)
+          /\ Chk("C01", "PaychCollectPaysAll", CollectRules, e)
           /\ Chk("C16", "OwedChangeJustified", OwedChangeJustified, e)
           /\ Chk("C16", "ExactDelta", ExactDelta, e)
           /\ Chk("C16", "NoncesGrow", NoncesGrow, e)
